@@ -36,7 +36,7 @@ def run(ctx):
         fixed = [dict(transfer_model="EH", lnk_min=-12.0, lnk_max=10.0, dlnk=0.2, Mmin=10.0, Mmax=15.0, dlog10m=0.5, z=z, hmf_model=f, mdef_model=md, cosmo_params=cp)
                  for f, md, cp, z in [("Watson", None, {"Om0": 0.25}, 1.0), ("Tinker08", "SOCritical", {"Om0": 0.25}, 0.0),
                                       ("Tinker10", "SOVirial", {"Om0": 0.4, "H0": 62.0}, 0.5)]]   # fits that read the cosmology, with cosmo_params set
-        for rep in range(len(fixed) + (8 if quick else 100)):
+        for rep in range(len(fixed) + (14 if quick else 100)):
             cfg = fixed[rep] if rep < len(fixed) else dict(transfer_model=r.choice(["EH", "BBKS", "EH_NoBAO", "BondEfs"]), lnk_min=-12.0, lnk_max=10.0, dlnk=0.2,
                        Mmin=r.choice([9, 10.0, 11.5]), Mmax=r.choice([14.0, 15, 15.5]), dlog10m=r.choice([0.5, 0.25, 1]),
                        z=r.choice([0.0, 0.5, 1.0, 3.0]), sigma_8=r.uniform(0.6, 1.0), n=r.uniform(0.9, 1.05), delta_c=r.choice([1.686, 1.6, 1.75]),
